@@ -372,8 +372,9 @@ class C12(Check):
         rb = run(both)
         alone = [run(house(0)), run(house(1))]
         for k, r in enumerate(alone):
-            if not r.built or r.exc is not None:
-                raise RuntimeError("harness: house %d alone does not build / run: %r %r\n%s" % (k, r.exc, getattr(r, "build_errors", None), house(k)))
+            if not r.built or r.exc is not None:      # a well-formed program
+                out.violate("rejected", "clone program rejected or raised", "house %d alone: exc=%r errors=%r\n%s" % (k, r.exc, getattr(r, "build_errors", None), house(k)))
+                return
         out.probe("two-houses-rearing")
         if not rb.built or rb.exc is not None:
             out.violate("houses-raised", "two houses rearing and razing clones: the run raised %s" % (type(rb.exc[1]).__name__ if rb.exc else "build error"),
@@ -434,15 +435,16 @@ class C12(Check):
 
         sa, ra = run(holders, vias)
         sb, rb = run(holders[:1], vias[:1])        # one outer clone alone
-        if not rb.built or rb.exc is not None:
-            raise RuntimeError("harness: the single-clone program does not build / run: %r %r\n%s" % (rb.exc, getattr(rb, "build_errors", None), sb))
-        if not ra.built or ra.exc is not None:
-            out.violate("rejected", "clone program rejected or raised", "exc=%r errors=%r\n%s" % (ra.exc, getattr(ra, "build_errors", None), sa))
-            return
+        for r, sc in ((rb, sb), (ra, sa)):
+            if not r.built or r.exc is not None:      # both are well-formed programs
+                out.violate("rejected", "clone program rejected or raised", "exc=%r errors=%r\n%s" % (r.exc, getattr(r, "build_errors", None), sc))
+                return
         out.probe("nested-clones-under-frame-inodes")
         alone = ticks_of(rb)
         if len(alone) != 1 or list(alone.values())[0] != goal:
-            raise RuntimeError("harness: a nested clone alone ran %r ticks, expected %d\n%s" % (alone, goal, sb))
+            # the original counts to its goal, one tick per run: a single nested clone that does anything else does not behave like it
+            out.violate("via-behaviour", "a nested clone does not behave like its original", "a single nested clone worked for %r ticks, its original works for %d\n%s" % (alone, goal, sb))
+            return
         got = ticks_of(ra)
         tr.add("via", sorted(got.values()))
         if sorted(got.values()) != [goal] * len(holders):
